@@ -483,7 +483,8 @@ Display == \E ct \in CtorSet \cap DispCtors :
                                    /\ Reduce(2, N("dict", <<>>, <<N("kv", <<>>, <<Top(1), Top(0)>>)>>))
 \* (a tuple display of integer literals as a slice bound makes the compiler emit C that does not compile:
 \*  by-catch, reported in the notes, not a matter of signatures)
-Bound(e) == e.k # "tuple"
+\*  and a constant float bound (1 / 1) is truncated to a C integer: by-catch too)
+Bound(e) == e.k # "tuple" /\ ~(e.k = "bin" /\ CTyped(e))
 Sl(lo, hi, st) == N("slice", <<>>, <<lo, hi, st>>)
 Primary == \E ct \in CtorSet \ (DispCtors \cup {"cond"}) :
              CASE ct = "attr"    -> Room(1) /\ (Base(Top(0)) \/ Top(0).k = "num" \/ FoldedNeg(Top(0)))
